@@ -367,4 +367,13 @@ def enqueueAsIs (c : Core) (r : RouteId) : Core :=
   else if c.warmedUp then registerRoute { c with objs := r :: c.objs } r
   else { c with objs := r :: c.objs, pending := c.pending ++ [r] }
 
+/-- K12f (open): the exported registrar-bridge methods `Router.AddRouteToTree` / `Router.AddVersionRoute` (the
+    `route.Registrar` interface, called by `Route.RegisterRoute`) write into the tree without looking at `serving` /
+    `frozen`: called directly after serving began they add a route to the live tree. `c` after such a call for route `r`. -/
+def bridgeCallAsIs (c : Core) (r : RouteId) : Core :=
+  { c with table := c.table.filter (fun e => e.1 != r) ++ [(r, false)] }
+
+/-- what the probe of K12f observes: (the call panicked, the route is routable afterwards) -/
+def bridgeProbeAsIs (c : Core) (r : RouteId) : Bool × Bool := (false, (lookup (bridgeCallAsIs c r) r true).isSome)
+
 end Rivaas.Phases
